@@ -97,7 +97,7 @@ def _as_int(a):
     return int(a)
 
 
-def build_real(graph, x0, with_undo=True, trace=False):
+def build_real(graph, x0, with_undo=True, trace=False, bounds=(-1e12, 1e12)):
     import numpy
 
     from cogent3.maths.optimisers import ParameterOutOfBoundsError
@@ -147,7 +147,7 @@ def build_real(graph, x0, with_undo=True, trace=False):
     objs = []
     for k, c in enumerate(graph["cells"]):
         if c["k"] == "opt":
-            p = AddOptPar(f"p{k}", (f"e{k}",), (-1e12, float(x0[k] + c["add"]), 1e12))
+            p = AddOptPar(f"p{k}", (f"e{k}",), (float(bounds[0]), float(x0[k] + c["add"]), float(bounds[1])))
             p.add = c["add"]
             objs.append(p)
         elif c["k"] == "const":
